@@ -215,10 +215,10 @@ fn c13_case(rwnd: usize, burst: usize, cwnd: usize, rto: u64, sizes: &[usize], f
     let mut cfg = [EpCfg::default(), EpCfg::default()];
     for e in cfg.iter_mut() { e.rwnd = rwnd; e.max_burst = burst; e.max_cwnd = cwnd; e.rto_initial_ms = rto; e.rto_min_ms = rto / 2; e.rto_max_ms = rto * 4; }
     cfg[0].seed_tsn = tsn; cfg[1].seed_tsn = tsn.map(|t| t ^ 0x3333);
-    let mut msgs: Vec<Msg> = sizes.iter().enumerate().map(|(i, l)| Msg { side: 0, chan: 1, data: payload(0, 1, i, *l), phase: 0 }).collect();
-    msgs.push(Msg { side: 1, chan: 1, data: payload(1, 1, 0, 700), phase: 0 });
+    let mut msgs: Vec<Msg> = sizes.iter().enumerate().map(|(i, l)| Msg { side: 0, chan: 1, data: payload(0, 1, i, *l), phase: 0, task: 0 }).collect();
+    msgs.push(Msg { side: 1, chan: 1, data: payload(1, 1, 0, 700), phase: 0, task: 0 });
     Case { cfg, chans: [vec![ChanSpec::reliable(1)], vec![ChanSpec::reliable(1)]], msgs, faults,
-        deadline: Duration::from_secs(15), settle: Duration::from_millis(rto * 5) }
+        deadline: Duration::from_secs(15), settle: Duration::from_millis(rto * 5), closes: vec![] }
 }
 
 fn cases(args: &Args, rng: &mut Rng) -> Vec<Case> {
